@@ -48,6 +48,7 @@ def obj_name(oid: int, t: int, data: bytes) -> bytes:
 
 _TEXT_WORDS = [b"alpha", b"beta", b"gamma", b"delta", b"epsilon", b"zeta", b"eta", b"theta", b"iota", b"kappa"]
 _text_cache = {}
+_rand_cache = {}
 
 
 def _text(seed: int, n: int) -> bytes:
@@ -56,28 +57,29 @@ def _text(seed: int, n: int) -> bytes:
     if have is None or len(have) < n:
         r = random.Random(0xC02000 + seed)
         parts, total, i = [], 0, 0
-        want = max(n, 300000)
+        want = max(256, 1 << max(n - 1, 1).bit_length())      # the stream is deterministic: regenerating a longer prefix is safe
         while total < want:
             line = b"%06d " % i + b" ".join(r.choice(_TEXT_WORDS) for _ in range(r.randint(2, 9))) + b"\n"
             parts.append(line)
             total += len(line)
             i += 1
         have = b"".join(parts)
+        if len(_text_cache) > 24:
+            _text_cache.clear()
         _text_cache[seed] = have
     return have[:n]
 
 
-_rand_cache = {}
-
-
 def _rand(seed: int, n: int) -> bytes:
     """n incompressible bytes; a prefix of the same stream for every n <= 300000."""
+    if n > 300000:
+        raise ValueError(n)
     have = _rand_cache.get(seed)
     if have is None:
         have = random.Random(0xC02F00 + seed).randbytes(300000)
+        if len(_rand_cache) > 24:
+            _rand_cache.clear()
         _rand_cache[seed] = have
-    if n > len(have):
-        raise ValueError(n)
     return have[:n]
 
 
